@@ -20,10 +20,24 @@ type QueryCase struct {
 	SQL    string          `json:"sql"` // informational (rendered from Q)
 	Mode   string          `json:"mode"`
 	NoOpt  bool            `json:"no_opt,omitempty"`
+	// Wrap: "" | "sub" | "cte" - the query is run as `SELECT * FROM (<Q>) s` / `WITH w AS (<Q>) SELECT * FROM w w`. The expected
+	// result is that of Q itself (used for a LIMIT without ORDER BY in a nested placement: any min(n, N) rows of the full result)
+	Wrap string `json:"wrap,omitempty"`
+}
+
+// RunSQL is the query text that is run.
+func (c QueryCase) RunSQL() string {
+	switch c.Wrap {
+	case "sub":
+		return "SELECT * FROM (" + c.Q.SQL() + ") s"
+	case "cte":
+		return "WITH w AS (" + c.Q.SQL() + ") SELECT * FROM w w"
+	}
+	return c.Q.SQL()
 }
 
 func (c QueryCase) Inv() Inv {
-	inv := Inv{Files: map[string]string{}, Args: []string{c.Q.SQL(), "-o", c.Mode}}
+	inv := Inv{Files: map[string]string{}, Args: []string{c.RunSQL(), "-o", c.Mode}}
 	if c.NoOpt {
 		inv.Args = append(inv.Args, "--optimize=false")
 	}
@@ -159,7 +173,7 @@ func judgeQuery(c QueryCase, res model.Result, r Res, excuse excuseFn) (o ev.Out
 		return ev.Outcome{Discard: true, Classes: []string{"timeout"}}
 	}
 	if r.Exit != 0 {
-		return ev.Fail("well-typed query fails: %s\n  %s", c.Q.SQL(), r.Brief())
+		return ev.Fail("well-typed query fails: %s\n  %s", c.RunSQL(), r.Brief())
 	}
 	var got []Row
 	var err error
@@ -169,7 +183,7 @@ func judgeQuery(c QueryCase, res model.Result, r Res, excuse excuseFn) (o ev.Out
 		got, err = ParseJSONOutT(r.Stdout)
 	}
 	if err != nil {
-		return ev.Fail("%v\n  query: %s", err, c.Q.SQL())
+		return ev.Fail("%v\n  query: %s", err, c.RunSQL())
 	}
 	if err := CompareResult(res, got, c.Mode == "csv"); err != nil {
 		if excuse != nil {
@@ -177,13 +191,13 @@ func judgeQuery(c QueryCase, res model.Result, r Res, excuse excuseFn) (o ev.Out
 				return ev.Outcome{Excluded: id, Classes: []string{"excluded_" + id}}
 			}
 		}
-		return ev.Fail("%v\n  query: %s\n  mode: -o %s optimize=%v", err, c.Q.SQL(), c.Mode, !c.NoOpt)
+		return ev.Fail("%v\n  query: %s\n  mode: -o %s optimize=%v", err, c.RunSQL(), c.Mode, !c.NoOpt)
 	}
 	var s qStats
 	statsOf(c.Q, &s)
 	t := c.Tables[0]
 	o.NonTrivial = (s.ops > 0 || s.hasDistinct || s.hasOrder || s.hasLimit || s.nested || s.with) && len(t.Rows) >= 2 && (tableHasNull(t) || tableHasDupRows(t) || (s.hasWhere && len(res.Full) > 0 && len(res.Full) < len(t.Rows)))
-	o.Key = c.Q.SQL() + "\x00" + t.Render() + c.Mode
+	o.Key = c.RunSQL() + "\x00" + t.Render() + c.Mode
 	for name, on := range map[string]bool{"where": s.hasWhere, "distinct": s.hasDistinct, "order_by": s.hasOrder, "limit": s.hasLimit, "subquery_in_from": s.nested, "with": s.with, "join": s.join, "group_by": s.grouped, "long_table": len(t.Rows) > 60, "empty_result": len(res.Full) == 0} {
 		if on {
 			o.Classes = append(o.Classes, name)
@@ -191,6 +205,7 @@ func judgeQuery(c QueryCase, res model.Result, r Res, excuse excuseFn) (o ev.Out
 	}
 	o.Classes = append(o.Classes, "mode_"+c.Mode, "format_"+t.Format)
 	o.Classes = append(o.Classes, timeClasses(c.Tables, c.Q)...)
+	o.Classes = append(o.Classes, listClasses(c.Tables, c.Q)...)
 	return o
 }
 
@@ -198,16 +213,16 @@ func TestC01(t *testing.T) {
 	r := ev.New("C01", "exploration",
 		"typed grammar queries (WHERE, projections with depth<=3 expressions over + - * / neg abs floor ceil len upper lower replace substr concat, comparisons, AND/OR/NOT, IS [NOT] NULL, IN/NOT IN, LIKE, COALESCE, NULL literal; DISTINCT; ORDER BY asc/desc 1-2 keys; LIMIT; subquery in FROM; WITH) "+
 			"over one generated CSV or JSON table (1-4 columns Int/Float/String/Boolean, NULL-heavy, duplicate-heavy, 1..10 rows, occasionally 63..200; "+
-			"CSV tables carry a Time column in about a third of the cases (RFC3339 cells from a small pool of instants incl. pre-1970 and year 2262, each written in one of the spellings Z/+02:00/-04:00/+05:30/-00:00/+00:00, so one instant under several spellings is frequent); time expressions are column references and COALESCE, compared with = != < <= > >=, tested with IS [NOT] NULL, projected, DISTINCT-ed and used as ORDER BY keys), run through the real binary with -o json (80%) or -o csv, optimised (default) or --optimize=false (15%); "+
-			"oracle = independent reference evaluator (a Time is an instant: two spellings of one instant are equal, one DISTINCT row, tie under ORDER BY; printed times are parsed and compared as instants); multiset comparison, ORDER BY key sequence, LIMIT count + sub-multiset. non-trivial: query has an operator beyond SELECT *, table has >=2 rows and (a NULL cell, duplicate rows, or a filter that kept some and dropped some rows). distinct = (SQL, file content, mode)",
+			"CSV tables carry a Time column in about a third of the cases (RFC3339 cells from a small pool of instants incl. pre-1970 and year 2262, each written in one of the spellings Z/+02:00/-04:00/+05:30/-00:00/+00:00, so one instant under several spellings is frequent); time expressions are column references and COALESCE, compared with = != < <= > >=, tested with IS [NOT] NULL, projected, DISTINCT-ed and used as ORDER BY keys); about a quarter of the JSON tables carry one list column ([Float] or [String]; cells from a pool of prefix-related lists [] [1] [1,2] [1,2,3] [1,2,3,4] [1,3] [2] [2,1], so proper-prefix pairs with length gaps of 1 and >=2 are the normal case, plus twin rows that differ only in a prefix-related list cell); list expressions are column references and COALESCE, compared with = != < <= > >=, IS [NOT] NULL, len(l), l[i], projected, DISTINCT-ed and used as ORDER BY keys (read with -o json only: -o csv cannot print a list), run through the real binary with -o json (80%) or -o csv, optimised (default) or --optimize=false (15%); "+
+			"oracle = independent reference evaluator (lists order lexicographically, a proper prefix first; l[i] beyond the end is NULL; a Time is an instant: two spellings of one instant are equal, one DISTINCT row, tie under ORDER BY; printed times are parsed and compared as instants); multiset comparison, ORDER BY key sequence, LIMIT count + sub-multiset. non-trivial: query has an operator beyond SELECT *, table has >=2 rows and (a NULL cell, duplicate rows, or a filter that kept some and dropped some rows). distinct = (SQL, file content, mode)",
 		"NaN/-0.0 never occur (C09); strings are ASCII (C12 owns multibyte and pattern behaviour); nested LIMIT always comes with ORDER BY over all output columns so the kept multiset is determined",
 		"JSON tables have no Int columns (JSON numbers are read as Float); CSV strings start with x/y/z so they cannot be re-inferred as another kind; the first row has no NULL so every column's kind is inferable")
 	ev.Check(t, r, "query_vs_model", ev.N(8000, 150000), func(t *rapid.T) QueryCase {
-		tbl := gen.Table(t, gen.TableOpts{Name: "tab", MinRows: 1, Time: true})
+		tbl := gen.Table(t, gen.TableOpts{Name: "tab", MinRows: 1, Time: true, List: true})
 		q := gen.Single(t, tbl, gen.QOpts{Depth: 2, ExprDepth: 3}, "q")
 		mode := "json"
-		if rapid.IntRange(0, 4).Draw(t, "mode") == 0 {
-			mode = "csv"
+		if rapid.IntRange(0, 4).Draw(t, "mode") == 0 && !tablesHaveList([]gen.TableSpec{tbl}) {
+			mode = "csv" // -o csv cannot print a list (octosql reports an error): tables with a list column are read with -o json
 		}
 		noopt := rapid.IntRange(0, 6).Draw(t, "noopt") == 0
 		return QueryCase{Tables: []gen.TableSpec{tbl}, Q: q, SQL: q.SQL(), Mode: mode, NoOpt: noopt}
